@@ -197,6 +197,9 @@ func closedGuarded(c *Ctx, e *lckEngine, fn *ssa.Function, send ssa.Instruction,
 }
 
 func runC16(c *Ctx) {
+	c.rule("C16-R7", "PAIR: the hub neither deadlocks: every Lock/RLock in pkg/websocket is released on every path to a return (explicit or deferred Unlock)")
+	c.Sites["C16-R7#acquire-sites"] = lockReleaseAudit(c, "C16-R7", []string{wsPkg})
+	c.floor("C16-R7", 15)
 	// ---- R1 lockset
 	c.rule("C16-R1", "LCK: Hub.connections/connMu, Hub.connectionStates/stateMu, Hub handler tables/handlerMu, Hub.running/runMu, Room.{connections,metadata,maxConnections}/Room.mu, RoomManager.rooms/mu, Connection.rooms/roomsMu, Connection.Data/mu, Connection.{missedPongs,lastPongTime}/heartbeatMu: every access with the mutex held, writes exclusive (log-only reads listed, not reported)")
 	g := func(t, f, m string) guard {
